@@ -1655,7 +1655,7 @@ def run(ctx: core.Ctx):
         ctx.violation("real outputs of two backends differ (C06): " + what,
                       {"family": family, "case": small, "engines": engs, **detail, "which_engine_deviates": attribute(family, small, results)},
                       kind="concrete", match_info=info)
-    if not problems and not ctx.lean.ok:
+    if not ctx.violations and not ctx.lean.ok:  # no NEW concrete violation: a known finding does not excuse a broken obligation
         ctx.violation("Lean obligations for C06 (generated dialect table) no longer check",
                       {"theorems": ctx.lean.as_dict()["undischarged"], "problems": ctx.lean.problems, "build_log_tail": ctx.lean.build_log[-2500:],
                        "dialect_table": ctx.extra_cov.get("dialect_table"), "searched_cases": ctx.evaluations}, kind="unproved")
